@@ -182,7 +182,10 @@ class Collector(ast.NodeVisitor):
             is_module = isinstance(f.value, ast.Name) and f.value.id in ('np', 'math', 'plt', 'time', 'logging', 'warnings', '_LOGGER') \
                 and f.value.id not in self.env
             if f.attr in MUTATORS and not is_module:
-                self.eff('ECallMut', self.obj(f.value), f.attr)
+                recv = f.value
+                if isinstance(recv, ast.Name) and recv.id not in self.env and recv.id.lstrip('_')[:1].isupper() and node.args:
+                    recv = node.args[0]       # unbound call  Class.meth(obj, ...): the receiver is the first argument
+                self.eff('ECallMut', self.obj(recv), f.attr)
             self.eff('ECall', f.attr)
         elif isinstance(f, ast.Name):
             self.eff('ECall', f.id)
